@@ -240,6 +240,57 @@ Proof.
   cbn [quad_inv event_of_quad map eview]. now rewrite !rview_norm by (try assumption; now apply term_rdflib_gcorr).
 Qed.
 
+(* the rows of a whole rdflib run are RDF 1.1 rows (no quoted triples, language tags rdflib accepts) *)
+Lemma rdf_triples_rows_rdf11 (o : soptions) (s s' : stream) (d : rdata) (evs : list tev) :
+  stream_new TripleStream Rdflib o = Ok s -> p_nd (so_params o) = false -> fl_rows (st_flow s) = [] ->
+  rd_kind d <> RDataset -> stmts_lang_ok (rd_stmts d) = true ->
+  rdf_triples_stream_frames d s = (s', evs) -> raised evs = None ->
+  rows_rdf11 (flat_map f_rows (emitted evs)).
+Proof.
+  intros Hnew Hnd Hfresh Hk Hl Hrun Hraise.
+  rewrite (rdf_triples_as_generic d s Hk) in Hrun.
+  pose proof (triples_stream_rows _ _ _ _ Hrun Hraise) as Hrows.
+  rewrite <- emitted_rows_is_concat, Hrows.
+  assert (Hopts : st_opts (enroll s) = o).
+  { unfold enroll. unfold stream_new in Hnew. destruct (negb _); [discriminate|]. unfold bind in Hnew.
+    destruct (match so_flow o with Some f => Ok f | None => infer_flow TripleStream o end); [|discriminate].
+    destruct (negb _); [discriminate|]. inversion Hnew; subst; reflexivity. }
+  assert (Hns : ns_phase false (sdata_of d) (enroll s) = (enroll s, Ok tt)) by (apply ns_phase_off; rewrite Hopts; exact Hnd).
+  rewrite Hns. cbn [fst].
+  assert (Henr : st_enrolled s = false /\ st_integ s = Rdflib).
+  { unfold stream_new in Hnew. destruct (negb _); [discriminate|]. unfold bind in Hnew.
+    destruct (match so_flow o with Some f => Ok f | None => infer_flow TripleStream o end); [|discriminate].
+    destruct (negb _); [discriminate|]. inversion Hnew; subst; cbn. auto. }
+  assert (Hig : st_integ (enroll s) = Rdflib /\ fl_rows (st_flow (enroll s)) = [options_row s]).
+  { destruct Henr as [He Hi]. unfold enroll. rewrite He. cbn. rewrite Hfresh. auto. }
+  destruct Hig as [Hig Hfl]. rewrite Hfl. apply rows_rdf11_app; [reflexivity|]. apply appended_triples_rdf11; [exact Hl | exact Hig].
+Qed.
+
+Lemma rdf_quads_rows_rdf11 (o : soptions) (s s' : stream) (d : rdata) (evs : list tev) :
+  stream_new QuadStream Rdflib o = Ok s -> p_nd (so_params o) = false -> fl_rows (st_flow s) = [] ->
+  stmts_lang_ok (rd_stmts d) = true ->
+  rdf_quads_stream_frames d s = (s', evs) -> raised evs = None ->
+  rows_rdf11 (flat_map f_rows (emitted evs)).
+Proof.
+  intros Hnew Hnd Hfresh Hl Hrun Hraise.
+  assert (Hopts : st_opts (enroll s) = o).
+  { unfold enroll. unfold stream_new in Hnew. destruct (negb _); [discriminate|]. unfold bind in Hnew.
+    destruct (match so_flow o with Some f => Ok f | None => infer_flow QuadStream o end); [|discriminate].
+    destruct (negb _); [discriminate|]. inversion Hnew; subst; reflexivity. }
+  rewrite (rdf_quads_as_generic d s) in Hrun by (rewrite Hopts; exact Hnd).
+  pose proof (quads_stream_rows _ _ _ _ Hrun Hraise) as Hrows.
+  rewrite <- emitted_rows_is_concat, Hrows.
+  assert (Hns : ns_phase true (sdata_of d) (enroll s) = (enroll s, Ok tt)) by (apply ns_phase_off; rewrite Hopts; exact Hnd).
+  rewrite Hns. cbn [fst].
+  assert (Henr : st_enrolled s = false /\ st_integ s = Rdflib).
+  { unfold stream_new in Hnew. destruct (negb _); [discriminate|]. unfold bind in Hnew.
+    destruct (match so_flow o with Some f => Ok f | None => infer_flow QuadStream o end); [|discriminate].
+    destruct (negb _); [discriminate|]. inversion Hnew; subst; cbn. auto. }
+  assert (Hig : st_integ (enroll s) = Rdflib /\ fl_rows (st_flow (enroll s)) = [options_row s]).
+  { destruct Henr as [He Hi]. unfold enroll. rewrite He. cbn. rewrite Hfresh. auto. }
+  destruct Hig as [Hig Hfl]. rewrite Hfl. apply rows_rdf11_app; [reflexivity|]. apply appended_quads_rdf11; [exact Hl | exact Hig].
+Qed.
+
 (* ---- Graph.serialize -> bytes -> rdflib parser ---- *)
 Theorem rdf_triples_bytes_round_trip (o : soptions) (s s' : stream) (d : rdata) (evs : list tev) (grouped : bool) :
   stream_new TripleStream Rdflib o = Ok s -> cfg_ok o (st_logical s) ->
